@@ -182,7 +182,8 @@ func (t ResourceType[T]) completeRelationship(ctx context.Context, id types.Reso
 
 func (t ResourceType[T]) getRelationship(ctx context.Context, id types.ResourceId, relationshipName string, params url.Values) (*types.Relationship, *types.Error) {
 	if t.Get == nil {
-		return nil, nil
+		err := errorForHTTPStatus(http.StatusMethodNotAllowed)
+		return nil, &err
 	}
 
 	resource, err := t.Get(ctx, id.Id)
@@ -209,7 +210,8 @@ func (t ResourceType[T]) patchRelationship(ctx context.Context, id types.Resourc
 
 func (t ResourceType[T]) addRelationshipMembers(ctx context.Context, id types.ResourceId, relationshipName string, members []types.ResourceId) (*types.Relationship, *types.Error) {
 	if t.Get == nil {
-		return nil, nil
+		err := errorForHTTPStatus(http.StatusMethodNotAllowed)
+		return nil, &err
 	}
 
 	resource, err := t.Get(ctx, id.Id)
@@ -232,7 +234,8 @@ func (t ResourceType[T]) addRelationshipMembers(ctx context.Context, id types.Re
 
 func (t ResourceType[T]) removeRelationshipMembers(ctx context.Context, id types.ResourceId, relationshipName string, members []types.ResourceId) (*types.Relationship, *types.Error) {
 	if t.Get == nil {
-		return nil, nil
+		err := errorForHTTPStatus(http.StatusMethodNotAllowed)
+		return nil, &err
 	}
 
 	resource, err := t.Get(ctx, id.Id)
